@@ -476,7 +476,7 @@ pub fn handle(op: &str, a: &[&str]) -> Option<String> {
             }
             Some(with_oracle(format!("ok {} {}", if out.is_empty() { "-".to_string() } else { out.join(";") }, err), o))
         }
-        ("val", [o, mask, v]) => {
+        ("val-op", [o, mask, v]) => {
             let mask: u64 = mask.parse().ok()?;
             let v = parse_value(v)?;
             if *o == "to_u64" {
@@ -489,7 +489,7 @@ pub fn handle(op: &str, a: &[&str]) -> Option<String> {
             let orc = oracle_unary(o, &v, mask, &r);
             Some(with_oracle(vres(&r), orc))
         }
-        ("val", [o, mask, x, y]) => {
+        ("val-op", [o, mask, x, y]) => {
             let mask: u64 = mask.parse().ok()?;
             let x = parse_value(x)?;
             if *o == "convert" || *o == "reinterpret" {
@@ -558,9 +558,9 @@ pub fn handle(op: &str, a: &[&str]) -> Option<String> {
                     }
                 }
             }
-            Some(with_oracle(format!("digest {h}"), bad.map(|b| format!("{b} ({badc} cases)"))))
+            Some(with_oracle(format!("ok digest={h}"), bad.map(|b| format!("{b} ({badc} cases)"))))
         }
-        ("eval", [e, asz, fmt, ver, st, init, obj, mx, h, sc, rest @ ..]) => {
+        ("expr-eval", [e, asz, fmt, ver, st, init, obj, mx, h, sc, rest @ ..]) => {
             if rest.len() > 1 {
                 return None;
             }
@@ -573,7 +573,7 @@ pub fn handle(op: &str, a: &[&str]) -> Option<String> {
             let o = if *st == "heap" && script.is_empty() { oracle_eval(&args, &reply) } else { None };
             Some(with_oracle(reply, o))
         }
-        ("blk-eval", [e, asz, st, mx, len, first]) => {
+        ("expr-blk", [e, asz, st, mx, len, first]) => {
             let en = endian(e)?;
             let asz: u8 = asz.parse().ok()?;
             let len: usize = len.parse().ok()?;
@@ -601,7 +601,7 @@ pub fn handle(op: &str, a: &[&str]) -> Option<String> {
                 }
                 h = digest_step(h, str_hash(&reply));
             });
-            Some(with_oracle(format!("digest {h}"), bad.map(|b| format!("{b} ({badc} cases)"))))
+            Some(with_oracle(format!("ok digest={h}"), bad.map(|b| format!("{b} ({badc} cases)"))))
         }
         _ => None,
     }
